@@ -113,12 +113,14 @@ fn render_case<F: Backend + RenderHints>(
                "threads": if pool.is_some() { "pool (shim, default schedule)" } else { "none" }})
     };
     let cfg = RenderConfig { image_size: VoxelSize::new(w, h, d), world_to_model: *m };
+    let via_run = chain.is_none() && matches!(pool, Some(ThreadPool::Global));
     let ecfg = EvalConfig { tile_sizes: chain.map(|c| TileSizes::new(c).unwrap()), threads: pool, cancel: Default::default() };
     // the chain in force: the caller's, or the backend's default
     let default_chain: Vec<usize> = F::tile_sizes_3d().iter().cloned().collect();
     let chain: &[usize] = chain.unwrap_or(&default_chain);
     cx.add("evals", 1);
-    let img = match guard(|| render(b.shape.bind(&b.vars).unwrap(), &cfg, &ecfg)) {
+    // default tile sizes + global pool = the convenience entry point VoxelRenderConfig::run
+    let img = match guard(|| if via_run { Some(cfg.run(b.shape.bind(&b.vars).unwrap())) } else { render(b.shape.bind(&b.vars).unwrap(), &cfg, &ecfg) }) {
         Ok(Some(i)) => i,
         Ok(None) => {
             cx.violation(format!("{} render returned None without cancellation", F::NAME), desc(), "None");
